@@ -42,7 +42,7 @@ type armInfo struct {
 func c3ArmSSA(c *Ctx, fn *ssa.Function, kv int64) *armInfo {
 	ai := &armInfo{read: map[string]bool{}}
 	field := c.fieldNamed()
-	rn := fn.Params[0].Name()
+	rn := PN(fn.Params[0])
 	encParam := fn.Params[1]
 	slots := map[string]bool{}
 	if st, ok := field.Underlying().(*types.Struct); ok {
